@@ -659,7 +659,7 @@ def part_directed(task: int, col: common.Collector) -> None:
 
 def run(tier: str, col: common.Collector) -> None:
     common.pmap(part_directed, [0], col)
-    per_worker = 250 if tier == "quick" else 10000
+    per_worker = 600 if tier == "quick" else 10000
     common.pmap(part_random, [(w, per_worker) for w in range(common.NCPU)], col)
     col.notes["models"] = per_worker * common.NCPU + len(c15gen.directed_models())
     col.notes["cascade_counters"] = (
